@@ -67,7 +67,7 @@ def _log10(x):
     return _s.div(_s.log(x), _s.LN10)
 
 
-COMPLEX_STEP_COMPONENT = [False]  # set by the harness while it runs a component whose partials are complex-step approximated
+from .sym import CS_MODE as COMPLEX_STEP_COMPONENT  # set by the harness while it runs a component whose partials are complex-step approximated
 
 
 class _Linalg:
@@ -219,7 +219,14 @@ class _NP:
 
     @staticmethod
     def real(x):
-        return x if _has_sym(x) else _np.real(x)
+        if not _has_sym(x):
+            return _np.real(x)
+        if COMPLEX_STEP_COMPONENT[0]:
+            from .sym import S, realpart
+
+            a = _np.asarray(x, dtype=object)
+            return _np.vectorize(lambda v: realpart(S(v)), otypes=[object])(a) if a.shape else realpart(S(x))
+        return x
 
     @staticmethod
     def imag(x):
